@@ -418,6 +418,9 @@ class ScriptedPlayer:
 
     def _drain(self):
         """after an offending action: the session is over for this client; read whatever comes"""
+        if self.overrides.get(('crash',)):
+            self.sock.close()
+            raise _Stop()
         while self.recv() is not None:
             pass
         raise _Stop()
